@@ -74,10 +74,9 @@ fn new_block(l: &Layout, cap: usize) -> Option<Block> {
 
 fn guards_ok(b: &Block) -> bool {
     unsafe {
-        for i in 0..b.front { if *b.base.add(i) != GUARD { return false; } }
-        for i in (b.front + b.payload_len)..b.total { if *b.base.add(i) != GUARD { return false; } }
+        crate::elem::all_eq(b.base, b.front, GUARD)
+            && crate::elem::all_eq(b.base.add(b.front + b.payload_len), b.total - b.front - b.payload_len, GUARD)
     }
-    true
 }
 
 fn free_block(b: Block) {
@@ -100,8 +99,7 @@ impl TrackState {
         }
         for (s, b) in self.quarantine.drain(..) {
             if !guards_ok(&b) { self.errs.push(format!("guard zone of released block #{s} overwritten")); }
-            let mut dirty = false;
-            unsafe { for i in 0..b.payload_len { if *b.payload.add(i) != POISON { dirty = true; break; } } }
+            let dirty = unsafe { !crate::elem::all_eq(b.payload, b.payload_len, POISON) };
             if dirty { self.errs.push(format!("released block #{s} written through a stale pointer")); }
             free_block(b);
         }
